@@ -160,6 +160,21 @@ def wavefront_rules(run, db):
                 run.check(ok, 'C03.wrapper', f.qual, label(text), text, '%s: %s' % (meth, text), f.loc())
         sp = w.attrs.get('space')
         run.check(isinstance(sp, Const) and sp.v == ('psf' if space_in == 'pupil' else 'pupil'), 'C03.wrapper', f.qual, 'space', 'space flips', 'result space is %r' % (sp,), f.loc())
+        # the same with a requested shift: the kernel frequency is symmetric in the two spacings, the translation is not -- it is the
+        # shift in units of the spacing of the OUTPUT plane (the requested dx), whichever spacing the wrapper calls input and output
+        dom.nonzero = {'sx', 'sy'}
+        res = [p for p in it.run(f, kwargs=lambda: {'efl': dom.sym('efl'), 'dx': dom.sym('dx'), 'samples': Tup([dom.length('M0'), dom.length('M1')]),
+                                                    'shift': Tup([dom.sym('sx'), dom.sym('sy')]), 'method': Const('mdft')}, self_obj=mkself) if p.outcome == 'return']
+        res = [p for p in res if not any(e['kind'] == 'coincidence' for e in p.events)]
+        if len(res) != 1 or not isinstance(res[0].value, Obj) or not isinstance(res[0].value.attrs.get('data'), Prod2):
+            raise AnalysisError('%s with a shift: the result is not followed as the matrix DFT of self.data' % f.qual)
+        data = res[0].value.attrs.get('data')
+        odx = Rat(R.atom('dx'))
+        for mat, nin, nout, in_rows, sh in ((data.left, 'n0', 'M0', False, 'sy'), (data.right, 'n1', 'M1', True, 'sx')):
+            spec = K.AxisSpec(dom.length(nin), dom.length(nout), k, Sym(Rat(R.atom(sh)) / odx), nin[-1])
+            obs, _ = K.check_dft_matrix(dom, mat, spec, in_rows, True)
+            for ok, text in obs:
+                run.check(ok, 'C03.wrapper', f.qual, 'shifted: ' + label(text), text + ' (shift in units of the requested dx)', '%s with shift: %s' % (meth, text), f.loc())
     # FFT route: reported dx is lambda f/(N_k dx) for BOTH axes of the (padded) array
     for meth, conv in (('focus', 'pupil_sample_to_psf_sample'), ('unfocus', 'psf_sample_to_pupil_sample')):
         f = db.func(P + 'Wavefront.' + meth)
